@@ -16,6 +16,7 @@ import (
 )
 
 type conv struct {
+	rawLits bool // mirror of the Lean builder: literal and tag texts are atoms
 	fset    *token.FileSet
 	imports map[string]string // local name -> path
 	pool    []string          // Qual index -> path
@@ -40,6 +41,9 @@ func (c *conv) exprs(xs []ast.Expr) []Arg {
 }
 
 func (c *conv) lit(b *ast.BasicLit) *Stmt {
+	if c.rawLits {
+		return one(id(b.Value))
+	}
 	raw := one(op(b.Value))
 	switch b.Kind {
 	case token.INT:
@@ -477,14 +481,47 @@ func (c *conv) funcDecl(d *ast.FuncDecl) *Stmt {
 // ConvertFile turns Go source into a recipe.  ok=false when the file uses something the
 // converter cannot express (reported in problems).
 func ConvertFile(name string, src []byte, caseID string) (cs *Case, file *ast.File, problems []string) {
+	return convertFile(name, src, caseID, false)
+}
+
+// ConvertFileSyn: the converter in mirror mode (NoFormat file, literal texts as atoms) paired with
+// the GoSyn term of the same declarations for the model driver.
+func ConvertFileSyn(name string, src []byte, caseID string) (*Case, string) {
+	cs, f, problems := convertFile(name, src, caseID, true)
+	if cs == nil || len(problems) > 0 {
+		return nil, "converter: " + strings.Join(problems, "; ")
+	}
+	imports := map[string]string{}
+	var setup []string
+	for _, o := range cs.Ops {
+		switch o.Kind {
+		case OpHintName, OpHintAlias:
+			imports[o.Str[1]] = o.Str[0]
+		}
+		if o.Kind != OpFAdd && o.Kind != OpRender {
+			setup = append(setup, o.Line())
+		}
+	}
+	line, why := SynLine(f, imports, 0)
+	if why != "" {
+		return nil, "outside GoSyn: " + why
+	}
+	cs.ModelText = "case " + caseID + "\n" + strings.Join(setup, "\n") + "\n" + line + "\nrender F0\nend\n"
+	return cs, ""
+}
+
+func convertFile(name string, src []byte, caseID string, mirror bool) (cs *Case, file *ast.File, problems []string) {
 	fset := token.NewFileSet()
 	f, err := parser.ParseFile(fset, name, src, parser.SkipObjectResolution)
 	if err != nil {
 		return nil, nil, []string{"source does not parse: " + err.Error()}
 	}
-	c := &conv{fset: fset, imports: map[string]string{}, poolIdx: map[string]int{}}
+	c := &conv{fset: fset, imports: map[string]string{}, poolIdx: map[string]int{}, rawLits: mirror}
 	cs = &Case{ID: caseID}
 	cs.Ops = append(cs.Ops, Op{Kind: OpFile, F: 0, Str: []string{"new", "", f.Name.Name}})
+	if mirror {
+		cs.Ops = append(cs.Ops, Op{Kind: OpSet, F: 0, Str: []string{"noformat", "1"}})
+	}
 	seenPath := map[string]bool{}
 	for _, is := range f.Imports {
 		path, _ := strconv.Unquote(is.Path.Value)
